@@ -54,16 +54,8 @@ Definition outcome_ok (r : res value) (e : expect) : bool :=
   | Err _, EAnyErr => true
   | _, _ => false
   end.
-(* indices of failing cases *)
-Fixpoint failing_from {A} (i : nat) (f : A -> bool) (l : list A) : list nat :=
-  match l with
-  | [] => []
-  | x :: t => if f x then failing_from (S i) f t else i :: failing_from (S i) f t
-  end.
-Definition failing {A} (f : A -> bool) (l : list A) : list nat := failing_from 0 f l.
 
 (* short constructors used by the generated case files *)
-Definition qz (n : Z) (d : positive) : Q := Qmake n d.
 Definition Ax (n : string) (k : kind) (l : list label) (m : meta) (g : list maxis) : axis :=
   {| aname := n; akind := k; alab := l; aattrs := m; amem := g |}.
 Definition Mx (n : string) (k : kind) (l : list label) (m : meta) : maxis :=
